@@ -1112,6 +1112,8 @@ impl<'v, 'a, 'e: 'a> Evaluator<'v, 'a, 'e> {
     pub(crate) fn report_forward_progress(&mut self) -> crate::Result<()> {
         self.infrequent_instr_check_counter += 1;
         #[cfg(starlark_verif)]
+        crate::verif::set_total_ticks(self.get_total_tick_count());
+        #[cfg(starlark_verif)]
         crate::verif::emit(
             "tick",
             self.infrequent_instr_check_counter as i64,
